@@ -267,6 +267,8 @@ class LiftRunner:
     # ---- numeric oracle: lifted evaluation vs direct application (independent of the model) ----
     def build_numeric(self, d):
         k = d[0]
+        if k == 'none':                      # an explicit None argument (clip=None: extrapolate)
+            return None
         if k == 'num':
             return d[1][2:] if d[1].startswith('s:') else parse_num(d[1])
         if k == 'fnn':                       # x -> x * a + b
